@@ -115,6 +115,12 @@ type c05Script struct {
 	// real socket) but returns only after this many milliseconds (a lingering close); further Close
 	// calls return "already closed" immediately.
 	CloseMs int `json:"close_ms,omitempty"`
+	// HalfClose: the connection also offers CloseWrite / CloseRead, as *net.TCPConn (what Proxy dials
+	// for the covert), *net.UnixConn and - CloseWrite only - tls.Conn do; a relay finds them with a
+	// type assertion on the net.Conn it was given. CloseWrite: the peer sees the end of the stream, the
+	// connection stays open and readable, later Writes fail with EPIPE. CloseRead: pending and later
+	// Reads return EOF. Neither closes the connection; deadlines can still be set.
+	HalfClose bool `json:"half_close,omitempty"`
 }
 
 func (s c05Script) total() int {
@@ -151,6 +157,17 @@ type c05Ev struct {
 	DLVal    time.Duration
 }
 
+// c05Wake: nobody could move at the current virtual time (every direction blocked in a Read or
+// finished, nothing closed under a blocked Read), so the harness let time pass and released the
+// parked Read of direction Dir: the clock went From -> To (the arrival of its next chunk or the
+// expiry of the read deadline in force on its connection).
+type c05Wake struct {
+	Seq      int
+	Dir      int
+	From, To time.Duration
+	NoDL     bool
+}
+
 type c05World struct {
 	mu    sync.Mutex
 	cond  *sync.Cond
@@ -172,6 +189,7 @@ type c05World struct {
 	conns   [2]*c05Conn
 	evs     []c05Ev
 	done    [2]int // sequence number at which the direction's halfPipe returned (0 = not yet)
+	wakes   []c05Wake
 	pan     [2]any
 	timer   *time.Timer
 	wgN     func() int // current WaitGroup counter (nil: unknown)
@@ -255,7 +273,7 @@ func (w *c05World) pick() {
 	}
 	var cands []int
 	for d := 0; d < 2; d++ {
-		if w.st[d] == c05StWaiting || (w.st[d] == c05StParked && w.conns[d].closed) {
+		if w.st[d] == c05StWaiting || (w.st[d] == c05StParked && w.conns[d].gone()) {
 			cands = append(cands, d)
 		}
 	}
@@ -323,12 +341,18 @@ func (w *c05World) earliest() []int {
 
 // wake advances the virtual clock to the wake time of parked direction d and releases it.
 func (w *c05World) wake(d int) {
+	wk := c05Wake{Seq: w.nextSeq(), Dir: d, From: w.vnow, To: w.vnow}
 	if t := w.wakeTime(d); t != c05Never {
 		if t > w.vnow {
 			w.vnow = t
 		}
+		wk.To = w.vnow
 	} else {
 		w.noDL = true // silent connection without a read deadline: a real relay would hang here
+		wk.NoDL = true
+	}
+	if w.abort == nil {
+		w.wakes = append(w.wakes, wk)
 	}
 	w.fire[d] = true
 }
@@ -351,7 +375,7 @@ func (w *c05World) advanceFree() {
 		if w.st[d] != c05StParked && w.st[d] != c05StDone {
 			return
 		}
-		if w.st[d] == c05StParked && (w.conns[d].closed || w.fire[d]) {
+		if w.st[d] == c05StParked && (w.conns[d].gone() || w.fire[d]) {
 			return
 		}
 	}
@@ -366,10 +390,10 @@ func (w *c05World) advanceFree() {
 // deadline in force expires - whichever the virtual clock reaches first.
 func (w *c05World) park(d int, c *c05Conn, arr time.Duration) string {
 	if w.solo || d < 0 {
-		for !c.closed && !w.stuck {
+		for !c.gone() && !w.stuck {
 			w.cond.Wait()
 		}
-		if c.closed {
+		if c.gone() {
 			return "closed"
 		}
 		return "stuck"
@@ -379,7 +403,7 @@ func (w *c05World) park(d int, c *c05Conn, arr time.Duration) string {
 	if w.free {
 		w.cond.Broadcast()
 		for {
-			if c.closed {
+			if c.gone() {
 				w.st[d] = c05StRunning
 				w.fire[d] = false
 				return "closed"
@@ -405,7 +429,7 @@ func (w *c05World) park(d int, c *c05Conn, arr time.Duration) string {
 		w.cond.Wait()
 	}
 	w.st[d] = c05StRunning
-	if c.closed {
+	if c.gone() {
 		w.fire[d] = false
 		return "closed"
 	}
@@ -461,6 +485,8 @@ type c05Conn struct {
 	delivered int
 	closed    bool
 	closeRet  bool // the first Close call has returned
+	wrShut    bool // CloseWrite was called (HalfClose connections)
+	rdShut    bool // CloseRead was called
 	syncOpen  int  // Close calls issued on a halfPipe's own goroutine that have not returned yet
 	syncSeen  int  // such calls seen at all
 	nClose    int
@@ -579,6 +605,11 @@ func (c *c05Conn) read(d int, p []byte) (int, error) {
 			c.ev(c05Ev{Dir: d, Op: "read", Off: c.pos, Err: "closed"})
 			return 0, c.mkErr("closed", "read")
 		}
+		if c.rdShut {
+			// the relay itself shut the read side down: end of stream, as on a socket
+			c.ev(c05Ev{Dir: d, Op: "read", Off: c.pos, Err: "eof"})
+			return 0, c.mkErr("eof", "read")
+		}
 		if len(p) == 0 {
 			return 0, nil
 		}
@@ -696,6 +727,8 @@ func (c *c05Conn) write(d int, p []byte) (int, error) {
 	kind := ""
 	if c.closed {
 		n, kind = 0, "closed"
+	} else if c.wrShut {
+		n, kind = 0, "epipe" // the relay itself shut the write side down
 	} else if !w.solo && c.wdlSet && w.vnow >= c.wdl {
 		// the write deadline in force lies in the (virtual) past: a socket refuses the write at once
 		n, kind = 0, "timeout"
@@ -833,6 +866,34 @@ func (c *c05Conn) close(d int) error {
 	return c.mkErr(c.s.CloseErr, "close")
 }
 
+// gone: a Read cannot wait on this connection any more (closed, or its read side shut down).
+func (c *c05Conn) gone() bool { return c.closed || c.rdShut }
+
+// shut is CloseWrite (which 'w') / CloseRead ('r') of a HalfClose connection, called by direction d.
+// Like Close it is not a yield point of the turn schedule.
+func (c *c05Conn) shut(d int, which byte) error {
+	w := c.w
+	w.mu.Lock()
+	defer w.mu.Unlock()
+	op := "shutwr"
+	if which == 'r' {
+		op = "shutrd"
+	}
+	if c.closed {
+		c.ev(c05Ev{Dir: d, Op: op, Err: "closed"})
+		return c.mkErr("closed", "close")
+	}
+	c.ev(c05Ev{Dir: d, Op: op})
+	if which == 'r' {
+		c.rdShut = true
+	} else {
+		c.wrShut = true
+	}
+	w.pick()
+	w.cond.Broadcast()
+	return nil
+}
+
 // closeState reports whether Close was called, whether the first Close call has returned, and how
 // many Close calls issued on a halfPipe's own goroutine are still in progress.
 func (c *c05Conn) closeState() (begun, returned bool, syncOpen int) {
@@ -873,6 +934,34 @@ func (v c05View) RemoteAddr() net.Addr               { return v.c.remote }
 func (v c05View) SetDeadline(t time.Time) error      { return v.c.setDL(v.d, t, 'b') }
 func (v c05View) SetReadDeadline(t time.Time) error  { return v.c.setDL(v.d, t, 'r') }
 func (v c05View) SetWriteDeadline(t time.Time) error { return v.c.setDL(v.d, t, 'w') }
+
+// c05ViewHC / c05ConnHC: the same connection for scripts with HalfClose - the dynamic type the relay
+// is handed also has CloseWrite and CloseRead.
+type c05ViewHC struct{ c05View }
+
+func (v c05ViewHC) CloseWrite() error { return v.c.shut(v.d, 'w') }
+func (v c05ViewHC) CloseRead() error  { return v.c.shut(v.d, 'r') }
+
+type c05ConnHC struct{ *c05Conn }
+
+func (c c05ConnHC) CloseWrite() error { return c.c05Conn.shut(-1, 'w') }
+func (c c05ConnHC) CloseRead() error  { return c.c05Conn.shut(-1, 'r') }
+
+// view returns the connection as direction d is to see it (with the half-close methods if scripted).
+func (c *c05Conn) view(d int) net.Conn {
+	if c.s.HalfClose {
+		return c05ViewHC{c05View{c, d}}
+	}
+	return c05View{c, d}
+}
+
+// asConn returns the connection as a net.Conn of its own (Proxy level).
+func (c *c05Conn) asConn() net.Conn {
+	if c.s.HalfClose {
+		return c05ConnHC{c}
+	}
+	return c
+}
 
 // c05Pool is a fixed pseudo-random byte pool; the two scripted streams are disjoint slices of it, so
 // that any loss, duplication or reordering changes the bytes seen at some offset.
